@@ -14,8 +14,8 @@ from .. import snapshot
 BOUNDS = {
     'quick': 'token soups: all concatenations of <= 3 lexemes from a 38-lexeme alphabet (56 k); every code point below '
              'U+3000 + one per general category + surrogates in 5 contexts; 156 documented functions x arities 0..2 over a '
-             '15-value pool + arity 3 over a 6-value pool; callback faults: 17 templates x (every callback invocation x 27 '
-             'exception kinds + 17 return values), <= 1 fault; callback actions: 17 templates x every invocation x 14 actions; every prefix and single-character deletion of a 60-formula '
+             '15-value pool + arity 3 over a 6-value pool; callback faults: 21 templates x (every callback invocation x 27 '
+             'exception kinds + 17 return values), <= 1 fault; callback actions: 21 templates x every invocation x 14 actions; every prefix and single-character deletion of a 60-formula '
              'corpus',
     'thorough': 'token soups to length 4 (2.1 M); all 1.1 M code points x 5 contexts; arity 3 over the full pool and arity '
                 '4 over an 8-value pool; all placements of <= 2 faults',
@@ -388,6 +388,10 @@ def _chained(E):
 
 def _selfref(kind):
     """a host list that contains itself (directly / through a row)"""
+    if kind == 3:
+        l = []
+        l.append(l)          # a one-item list whose item is itself
+        return l
     l = [1, 2]
     l.append(l if kind == 1 else [3, l])
     return l
@@ -399,10 +403,10 @@ def return_menu(env):
             {'result': 1},
             # error objects of the host's own making inside 1x1 and 1xN lists (what a range listener hands in)
             [[X('#SPILL!')]], [X('#CALC!')], [[X()]], [[env.dec({'$err': '#N/A'})]], [[X('#WEIRD!'), 1], [2, 3]], [[5]], [],
-            _selfref(1), _selfref(2)]
+            _selfref(1), _selfref(2), _selfref(3)]
 
 
-TEMPLATES = ['FN(1)', 'A1', 'B1:B1', 'va', 'FN(1)+10', '10+FN(1)*3', 'SUM(FN(1),5)', 'FN(FN(1))', 'FN(1)&FN(2)', 'va+1', 'A1+B2', 'SUM(A1:B2)',
+TEMPLATES = ['FN(1)', 'A1', 'B1:B1', 'va', 'FN(1)+{1,2}', '{1,2}*A1', 'va&FN(1)', 'FN(1)=A1', 'FN(1)+10', '10+FN(1)*3', 'SUM(FN(1),5)', 'FN(FN(1))', 'FN(1)&FN(2)', 'va+1', 'A1+B2', 'SUM(A1:B2)',
              'IF(FN(1)>0,va,A1)', '-FN(1)', 'IFERROR(FN(1),A1)', '{1,2}+FN(3)', 'FN(va,A1,B1:C2)']
 
 EVENTS = ('callFunction', 'callVariable', 'callCellValue', 'callRangeValue')
@@ -410,16 +414,16 @@ EVENTS = ('callFunction', 'callVariable', 'callCellValue', 'callRangeValue')
 
 class Faults(Sub):
     name = 'c01.callback_faults'
-    rule = ('17 templates reaching every host callback (custom function, listeners of the four events); every callback '
+    rule = ('21 templates reaching every host callback (custom function, listeners of the four events); every callback '
             'invocation of a template either behaves or raises one of 27 exception kinds (hostile __str__/__hash__/__eq__/'
-            '__repr__ included) / returns or sets one of 19 odd '
+            '__repr__ included) / returns or sets one of 20 odd '
             'values (incl. host-made error objects inside 1x1 lists); all placements of up to F faults; non-trivial = placement where a callback raised')
     min_cases = 500
     min_nontrivial = 300
     min_classes = 3
 
     def cases(self, tier, unit):
-        nmenu = 27 + 19
+        nmenu = 27 + 20
         for ti in range(len(TEMPLATES)):
             yield [ti, []]
             # first pass discovers how many callback invocations the template has; enumerate up to 12 sites
@@ -492,7 +496,7 @@ ACTIONS = ([('parse-same', t) for t in ACTION_INNER] + [('parse-other', 'FN(1)+v
 
 class Actions(Sub):
     name = 'c01.callback_actions'
-    rule = ('17 templates x every callback invocation x 14 things a well-behaved host callback may DO besides returning '
+    rule = ('21 templates x every callback invocation x 14 things a well-behaved host callback may DO besides returning '
             '(evaluate one of 5 formulas on the SAME parser or another one, subscribe listeners that subscribe further '
             'listeners when called, re-subscribe itself, unsubscribe everything, rebind a variable or function, build a '
             'parser): parse returns a well-formed record within the step budget and within a 5 s wall-clock alarm '
